@@ -50,7 +50,8 @@ def _run_all(repo, pids=None, share=True):
                     ctx._extra["borrow_stack"] = [pid]
                     ctx._extra["borrow_cut"] = False
                     try:
-                        res = mod.run(ctx, "quick")
+                        from sa.props import run_property
+                        res = run_property(ctx, pid, "quick")
                     finally:
                         ctx._extra["borrow_stack"] = []
                     cache[pid] = res
